@@ -133,7 +133,7 @@ func init() {
 						}
 					}},
 				{Name: "n-layers", ShardDepth: 2, Bounds: engine.Bounds{InputDev: -1},
-					Rule: "full product h in small zoom set x base voxel x list shape in {single, face-adjacent pair, identical twice, diagonal pair, triple} x hLayers,vLayers in 0..4 (result <= 4000 ids); set = comprehension over the model, duplicate-free, exact count (2H+1)^2(2V+1)-1 and self-exclusion for a single voxel where 2H+1 <= 2^h; non-trivial = distinct cases with both layer counts > 0",
+					Rule: "full product h in small zoom set x base voxel x list shape in {single, face-adjacent pair, identical twice, diagonal pair, triple, three mixed-zoom lists with entries on the edge of their own grid} x hLayers,vLayers in 0..4 (result <= 4000 ids); set = comprehension over the model, duplicate-free, exact count (2H+1)^2(2V+1)-1 and self-exclusion for a single voxel where 2H+1 <= 2^h; non-trivial = distinct cases with both layer counts > 0",
 					Body: func(c *engine.Ctx) {
 						hs := []int64{0, 1, 2, 3, 4, 16, 35}
 						if tier == "thorough" {
@@ -146,7 +146,7 @@ func init() {
 						fsel := []int64{0, -1}
 						f := fsel[c.In("f", 2)]
 						base := ref.Vox{H: h, X: x, Y: y, V: h, F: f}
-						shape := c.In("shape", 5)
+						shape := c.In("shape", 8)
 						var list []ref.Vox
 						switch shape {
 						case 0:
@@ -159,6 +159,20 @@ func init() {
 							list = []ref.Vox{base, base.Shift(-1, 1, 1)}
 						case 4:
 							list = []ref.Vox{base, base.Shift(0, 2, 0), base.Shift(0, 0, -1)}
+						case 5, 6, 7: // mixed horizontal / vertical zooms in one list: each entry wraps on its own grid
+							if h < 2 || h > 33 {
+								c.Skip("no-room-for-mixed-zooms")
+							}
+							coarseEdge := ref.Vox{H: h - 2, X: (int64(1) << uint(h-2)) - 1, Y: 0, V: h, F: f}
+							fineBig := ref.Vox{H: h + 2, X: (int64(1) << uint(h+2)) - 1, Y: (int64(1) << uint(h+1)) + 1, V: h + 1, F: f}
+							switch shape {
+							case 5:
+								list = []ref.Vox{base, coarseEdge}
+							case 6:
+								list = []ref.Vox{coarseEdge, fineBig}
+							case 7:
+								list = []ref.Vox{fineBig, base, coarseEdge}
+							}
 						}
 						H := int64(c.In("hLayers", 5))
 						V := int64(c.In("vLayers", 5))
